@@ -8,7 +8,8 @@
 namespace c01 {
 using namespace Fastor;
 
-enum Form { F_MATMUL = 0, F_ASSIGN = 1, F_ADD = 2, F_SUB = 3, F_MUL = 4, F_DIV = 5, F_CTOR = 6 };
+enum Form { F_MATMUL = 0, F_ASSIGN = 1, F_ADD = 2, F_SUB = 3, F_MUL = 4, F_DIV = 5, F_CTOR = 6,
+            F_MATMUL_TE = 7, F_MATMUL_ET = 8, F_MATMUL_EE = 9, F_CTOR_EE = 10 /* unevaluated operands */ };
 
 // operand/result tensor types for the three call shapes: 0 = matrix*matrix, 1 = matrix*vector, 2 = vector*matrix
 template <class T, size_t M, size_t K, size_t N, int SHAPE> struct Types;
@@ -33,6 +34,10 @@ template <class A, class B, class C> static inline void do_call(FormTag<F_ADD>, 
 template <class A, class B, class C> static inline void do_call(FormTag<F_SUB>,    const A& a, const B& b, C* cp) { *cp -= a % b; }
 template <class A, class B, class C> static inline void do_call(FormTag<F_MUL>,    const A& a, const B& b, C* cp) { *cp *= a % b; }
 template <class A, class B, class C> static inline void do_call(FormTag<F_DIV>,    const A& a, const B& b, C* cp) { *cp /= a % b; }
+template <class A, class B, class C> static inline void do_call(FormTag<F_MATMUL_TE>, const A& a, const B& b, C* cp) { new (cp) C(matmul(a, b + 0)); }
+template <class A, class B, class C> static inline void do_call(FormTag<F_MATMUL_ET>, const A& a, const B& b, C* cp) { new (cp) C(matmul(a + 0, b)); }
+template <class A, class B, class C> static inline void do_call(FormTag<F_MATMUL_EE>, const A& a, const B& b, C* cp) { new (cp) C(matmul(a + 0, b + 0)); }
+template <class A, class B, class C> static inline void do_call(FormTag<F_CTOR_EE>,   const A& a, const B& b, C* cp) { new (cp) C((a + 0) % (b + 0)); }
 template <class T, size_t M, size_t K, size_t N, int SHAPE, int FORM> static FX_NOINLINE void thunk(const void* ap, const void* bp, void* cpv) {
     using TY = Types<T, M, K, N, SHAPE>;
     using A = typename TY::A; using B = typename TY::B; using C = typename TY::C;
@@ -119,7 +124,7 @@ template <class T> struct Driver {
     void frac_impl(std::false_type) {}
     // non-integer point against the long double reference with the forward bound
     void frac_impl(std::true_type) {
-        if (j.form != F_MATMUL && j.form != F_ASSIGN && j.form != F_CTOR && j.form != F_ADD) return;
+        if (j.form != F_MATMUL && j.form != F_ASSIGN && j.form != F_CTOR && j.form != F_ADD && j.form < F_MATMUL_TE) return;
         e.resize(SC); bd.resize(SC);
         fxv::fill_frac(a, SA, 1); fxv::fill_frac(b, SB, 2); clip();
         fxv::ref_matmul_ld(a, b, e.data(), bd.data(), j.M, j.K, j.N);
